@@ -56,36 +56,11 @@ func appendFact(fs []Fact, f Fact, depth int) []Fact {
 			return appendFact(fs, Fact{x.X, !f.Truth}, depth+1)
 		}
 	case *ssa.Phi:
-		if len(x.Edges) != 2 || len(x.Block().Preds) != 2 {
-			return fs
-		}
-		for i := 0; i < 2; i++ {
-			c, ok := x.Edges[i].(*ssa.Const)
-			if !ok || c.Value == nil || c.Value.Kind() != constant.Bool {
-				continue
-			}
-			k := constant.BoolVal(c.Value)
-			pr := x.Block().Preds[i]
-			iff, ok := pr.Instrs[len(pr.Instrs)-1].(*ssa.If)
-			if !ok || len(pr.Succs) != 2 {
-				continue
-			}
-			// the short-circuit edge: from the block that tests the left
-			// operand straight to the join, carrying the constant
-			onTrue := pr.Succs[0] == x.Block()
-			if k != onTrue {
-				continue // not the `a true ⇒ true` / `a false ⇒ false` shape
-			}
-			other := x.Edges[1-i]
-			if k && !f.Truth {
-				// a || b is false
-				fs = appendFact(fs, Fact{iff.Cond, false}, depth+1)
-				fs = appendFact(fs, Fact{other, false}, depth+1)
-			}
-			if !k && f.Truth {
-				// a && b is true
-				fs = appendFact(fs, Fact{iff.Cond, true}, depth+1)
-				fs = appendFact(fs, Fact{other, true}, depth+1)
+		if ops, isOr, ok := shortCircuit(x, 0); ok && isOr != f.Truth {
+			// a false `a || b || …` makes every operand false; a true
+			// `a && b && …` makes every operand true
+			for _, o := range ops {
+				fs = appendFact(fs, Fact{o, f.Truth}, depth+1)
 			}
 		}
 	}
@@ -648,4 +623,52 @@ func expandRet(r *ssa.Return, b *ssa.BasicBlock, res []ssa.Value, fs []Fact, dep
 			*out = append(*out, ExpRet{r, pr, nres, efs})
 		}
 	}
+}
+
+// shortCircuit decomposes a materialised `a || b || …` (isOr) or `a && b && …`
+// into its operands; ok is false when v is not such a value.
+func shortCircuit(v ssa.Value, depth int) (ops []ssa.Value, isOr, ok bool) {
+	x, isPhi := v.(*ssa.Phi)
+	if !isPhi || depth > 6 || len(x.Edges) < 2 || len(x.Block().Preds) != len(x.Edges) {
+		return nil, false, false
+	}
+	// every edge but the last carries the same boolean constant and comes
+	// straight from a block that tests one operand
+	var k bool
+	first := true
+	var rest ssa.Value
+	for i, e := range x.Edges {
+		c, isC := e.(*ssa.Const)
+		if !isC || c.Value == nil || c.Value.Kind() != constant.Bool {
+			if rest != nil {
+				return nil, false, false
+			}
+			rest = e
+			continue
+		}
+		kv := constant.BoolVal(c.Value)
+		if first {
+			k, first = kv, false
+		} else if kv != k {
+			return nil, false, false
+		}
+		pr := x.Block().Preds[i]
+		iff, isIf := pr.Instrs[len(pr.Instrs)-1].(*ssa.If)
+		if !isIf || len(pr.Succs) != 2 {
+			return nil, false, false
+		}
+		if (pr.Succs[0] == x.Block()) != k {
+			return nil, false, false
+		}
+		ops = append(ops, iff.Cond)
+	}
+	if first || rest == nil {
+		return nil, false, false
+	}
+	if sub, subOr, ok2 := shortCircuit(rest, depth+1); ok2 && subOr == k {
+		ops = append(ops, sub...)
+	} else {
+		ops = append(ops, rest)
+	}
+	return ops, k, true
 }
